@@ -45,7 +45,10 @@ Record GroupOps (F : Sc) := mkGroup {
   g_vee : list (list (K F)) -> list (K F);
   g_bracket : list (K F) -> list (K F) -> list (K F);   (* BracketEvaluatorImpl *)
   g_innerweights : list (list (K F));
-  g_trandom : list (K F) -> list (K F)   (* Tangent::setRandom as a function of Eigen's setRandom() draw in [-1,1]^DoF *)
+  g_trandom : list (K F) -> list (K F);  (* Tangent::setRandom as a function of Eigen's setRandom() draw in [-1,1]^DoF *)
+  g_grandom : list (K F) -> list (K F)   (* LieGroup::setRandom as a function of the DoF underlying draws: exp of a random tangent
+                                            for SO2, SE2, Rn; for SO3, SE3, SE_2(3), SGal(3) the constructor applied to random
+                                            translation-like parts and Eigen's Quaternion::UnitRandom (randQuat) *)
 }.
 
 Arguments g_dim {F}. Arguments g_dof {F}. Arguments g_rep {F}. Arguments g_tra {F}. Arguments g_alg {F}.
@@ -57,7 +60,7 @@ Arguments g_transform {F}. Arguments g_rotation {F}. Arguments g_translation {F}
 Arguments g_normalize {F}. Arguments g_assert_ok {F}.
 Arguments g_exp {F}. Arguments g_exp_J {F}. Arguments g_hat {F}. Arguments g_rjac {F}. Arguments g_ljac {F}.
 Arguments g_rjacinv {F}. Arguments g_ljacinv {F}. Arguments g_smallAdj {F}. Arguments g_generator {F}.
-Arguments g_vee {F}. Arguments g_bracket {F}. Arguments g_innerweights {F}. Arguments g_trandom {F}.
+Arguments g_vee {F}. Arguments g_bracket {F}. Arguments g_innerweights {F}. Arguments g_trandom {F}. Arguments g_grandom {F}.
 
 (* the signed -> unsigned conversion of Generator(const int i) -> run(const unsigned int i) *)
 Definition to_unsigned32 (i : Z) : Z := Z.modulo i 4294967296.
